@@ -2,7 +2,10 @@
 
 package cluster
 
-import "github.com/kercylan98/vivid/internal/messages"
+import (
+	"github.com/kercylan98/vivid"
+	"github.com/kercylan98/vivid/internal/messages"
+)
 
 // VerifWriteClusterView / VerifReadClusterView expose the view serialiser to the verification harness.
 func VerifWriteClusterView(w *messages.Writer, v *ClusterView) error { return writeClusterView(w, v) }
@@ -21,4 +24,20 @@ func (a *NodeActor) VerifLastVersionVectors() map[string]VersionVector {
 // VerifView returns a snapshot of the node's current view and its own state.
 func (a *NodeActor) VerifView() (*ClusterView, *NodeState) {
 	return a.clusterView.Snapshot(), a.nodeState.Clone()
+}
+
+// VerifNewSingletonForwarded builds the (unexported) forwarded-message value; VerifSingletonForwardedParts projects one.
+func VerifNewSingletonForwarded(sender vivid.ActorRef, addr, path string, message vivid.Message) any {
+	return &singletonForwardedMessage{sender: sender, senderAddr: addr, senderPath: path, message: message}
+}
+
+func VerifSingletonForwardedParts(m any) (addr, path string, message vivid.Message, ok bool) {
+	f, ok := m.(*singletonForwardedMessage)
+	if !ok {
+		return "", "", nil, false
+	}
+	if f.sender != nil {
+		return f.sender.GetAddress(), f.sender.GetPath(), f.message, true
+	}
+	return f.senderAddr, f.senderPath, f.message, true
 }
